@@ -79,6 +79,69 @@ def rule_identity(ctx: Ctx, repo: Repo) -> None:
             ctx.check(k == "return" and got_keep == want_keep, "R-C16.1", lf.fq,
                       "a `from m import a [as x]` name is removed iff the very same import (module, object, alias) is being moved",
                       construct=f"{lab}: kept {got_keep}, expected {want_keep}")
+    # relative imports of the source.  libcst resolves `from .m import x` against the package its context knows; without
+    # a package the import is unresolvable: the gatherer skips it and the remover matches nothing.  Both sites must have
+    # the same knowledge - if only the remover resolves relative imports, a source import is taken for one of the stub's
+    # new imports and removed.
+    seen_pkg: List[V] = []
+
+    def spy(call, fname, fval, args, kwargs, st, _s=seen_pkg):
+        if (fname or "") == "get_absolute_module_from_package_for_import" and args:
+            _s.append(st.freeze(args[0]))
+        return None
+
+    probe = R("ImportFrom", module=K("shapes"), relative=K(1), names=K((alias_node("Circle"),)))
+    sc = CliScenario(repo, TCI, "RemoveImportsTransformer.leave_ImportFrom", hook=spy)
+    def oa0(obj, attr, nd, st, _b=sc.on_attr):
+        if isinstance(obj, S) and obj.name == "self" and attr == "import_items_to_be_removed":
+            return K((item("shop.shapes", "Circle"),))
+        if isinstance(obj, S) and obj.name == "self":
+            return S("self." + attr)
+        return _b(obj, attr, nd, st)
+    sc.ri.on_attr = sc.ri.interp.on_attr = oa0  # type: ignore
+    ps = lf.positional_params()
+    try:
+        sc.result({ps[0]: S("self"), ps[1]: probe, ps[2]: probe})
+    except AnalysisError:
+        pass
+    remover_knows = [p_ for p_ in seen_pkg if p_ != K(None)]
+    gather_ctx: List[Dict[str, V]] = []
+
+    def spy2(call, fname, fval, args, kwargs, st, _g=gather_ctx):
+        d = fname or ""
+        if d == "CodemodContext":
+            return R("context", package=st.freeze(kwargs.get("full_package_name", K(None))), module=st.freeze(kwargs.get("full_module_name", K(None))))
+        if d == "GatherImportsVisitor":
+            _g.append({"context": st.freeze(args[0]) if args else K(None)})
+            return R("gatherer", n=K(len(_g)))
+        if isinstance(call.func, ast.Attribute) and call.func.attr == "visit":
+            return K(None)
+        return None
+
+    gn = repo.fn(CLI, "get_newly_imported_items")
+    scg = CliScenario(repo, CLI, "get_newly_imported_items", hook=spy2)
+    baseg = scg.on_attr
+    scg.ri.on_attr = scg.ri.interp.on_attr = (lambda obj, attr, nd, st, _b=baseg: R("opaque", of=obj, attr=K(attr)) if isinstance(obj, R) and obj.kind == "gatherer" else _b(obj, attr, nd, st))  # type: ignore
+    try:
+        scg.result({p_: R("module", of=S(p_)) for p_ in gn.positional_params()[:2]} | {p_: S("arg:" + p_) for p_ in gn.positional_params()[2:]})
+    except AnalysisError:
+        pass
+    gatherer_knows = [c for c in gather_ctx if isinstance(c["context"], R) and c["context"].kind == "context" and c["context"].fields["package"] != K(None)]
+    n += 1
+    ctx.check(not remover_knows or len(gatherer_knows) == len(gather_ctx) >= 2, "R-C16.1", lf.fq,
+              "relative imports are resolved by the remover only if the computation of the new imports resolves them too (otherwise a source import is taken for new and removed)",
+              construct=f"remover resolves against {[str(x) for x in seen_pkg]}; gatherer contexts {[str(c['context'])[:60] for c in gather_ctx]}")
+    if not remover_knows:
+        for dots, mod, moved_mod in ((1, "shapes", "shop.shapes"), (2, "shapes", "shop.shapes"), (1, None, "shop")):
+            node = R("ImportFrom", module=K(mod), relative=K(dots), names=K((alias_node("Circle"),)))
+            moved = (item(moved_mod, "Circle"),)
+            sc = CliScenario(repo, TCI, "RemoveImportsTransformer.leave_ImportFrom")
+            sc.ri.on_attr = sc.ri.interp.on_attr = (lambda obj, attr, nd, st, _m=moved, _b=sc.on_attr: K(tuple(_m)) if isinstance(obj, S) and obj.name == "self" and attr == "import_items_to_be_removed" else _b(obj, attr, nd, st))  # type: ignore
+            k, res = sc.result({ps[0]: S("self"), ps[1]: node, ps[2]: node})
+            n += 1
+            ctx.check(k == "return" and _kept(res) == [("Circle", None)], "R-C16.1", lf.fq,
+                      "a relative import of the source is never removed (unresolvable without a package, it matches none of the stub's absolute imports)",
+                      construct=f"`from {'.' * dots}{mod or ''} import Circle` while moving `from {moved_mod} import Circle`: kept {_kept(res)}")
     # star imports are never touched
     star = R("ImportFrom", module=K("m"), names=R("ImportStar"))
     sc = CliScenario(repo, TCI, "RemoveImportsTransformer.leave_ImportFrom")
